@@ -22,6 +22,7 @@ THEOREMS = [
     ("EG.props.C08", "C08_checker_accepts_model"),
     ("EG.props.C08", "C08_wrapper_one_record_per_call"),
     ("EG.props.C08", "C08_short_circuit_is_503"),
+    ("EG.props.C08", "C08_short_circuit_every_shape"),
     ("EG.props.C08", "C08_nonvacuous"),
 ]
 HARNESSES = [
@@ -122,9 +123,10 @@ def encode(c):
         reqs, now = [], i["t0"]
         for rq in i["reqs"] or []:
             now += rq["dt"]
-            reqs.append(T(Z(now), _backend(rq)))
-        return Rec(q_pol=_pol(i["pol"]), q_t0=Z(i["t0"]), q_reqs=L(reqs),
-                   q_obs=L([T(Z(s["status"]), S(s["result"]), Z(s["contacted"])) for s in (o["reqs"] or [])]))
+            reqs.append(T(Z(now), _backend(rq), B(rq.get("body", 0) >= 2)))
+        return Rec(q_pol=_pol(i["pol"]), q_t0=Z(i["t0"]), q_retry=Z(i.get("retry", 0)), q_reqs=L(reqs),
+                   q_obs=L([T(Z(s["status"]), S(s["result"]), Z(s["contacted"]), Z(s["state"]), Z(s["id"]), Z(s["total"]))
+                            for s in (o["reqs"] or [])]))
     if g == "lin":
         ops = []
         for op in o["ops"] or []:
